@@ -1,17 +1,26 @@
 (* Correspondence checkers for Irving.scf and its public stages (C03, C17). *)
 From Coq Require Import ZArith List Bool.
 Import ListNotations.
-From SCK Require Import Irving.
+From SCK Require Import Irving IrvRot.
 
 Definition irv_case : Type := (list (list nat) * list (list nat) * list (list Z) * list (list Z) * nat * expect)%type.
 (* every intermediate structure and the final matching agree with the observed ones *)
-Definition chk_irv (c : irv_case) : bool := Nat.eqb (icheck c) 0.
+(* hypothesis of IrvRot.irving_elimination_sound on this run: the Gale-Shapley matching is perfect and every selected
+   rotation is exposed (distinct men, all pairs present) in the matching it is eliminated from *)
+Definition elim_hyp (t : trace) : bool :=
+  perfectb (t_M0 t) && exposed_allb (t_M0 t) (map (fun i => nth i (t_rots t) []) (t_S t)).
+Definition chk_irv (c : irv_case) : bool :=
+  let '(P1, P2, V1, V2, ff, e) := c in
+  match irving P1 P2 V1 V2 ff with
+  | Some t => Nat.eqb (icheck_t t e) 0 && elim_hyp t
+  | None => false
+  end.
 
 (* final matching only (used by C17, where the valuations are the simulated ones) *)
 Definition irv_out_case : Type := (list (list nat) * list (list nat) * list (list Z) * list (list Z) * nat * list (nat * nat))%type.
 Definition chk_irv_out (c : irv_out_case) : bool :=
   let '(P1, P2, V1, V2, ff, e) := c in
   match irving P1 P2 V1 V2 ff with
-  | Some t => match t_out t with Some o => lp_eqb o e | None => false end
+  | Some t => match t_out t with Some o => lp_eqb o e | None => false end && elim_hyp t
   | None => false
   end.
